@@ -54,6 +54,10 @@ struct Hist {
     /// KF-C12-1: a compaction overlapped a write that extended this region past its last valid page;
     /// its contents are no longer compared (counted as excluded)
     tainted: bool,
+    /// compaction counters and length when the owner's current / last operation began
+    op_cs0: usize,
+    op_cf0: usize,
+    op_old_len: usize,
 }
 
 #[derive(Default)]
@@ -98,15 +102,26 @@ fn err(sh: &Shared, m: String) {
 /// The owner announces the contents its next operation will produce BEFORE calling the library, so
 /// that a Reader created by another program in the middle of that operation finds them in the history.
 fn begin(sh: &Shared, uid: u64, new_bytes: &[u8]) {
+    let (cs, cf) = (sh.compact_started.load(Ordering::SeqCst), sh.compact_finished.load(Ordering::SeqCst));
     let mut w = sh.world.lock().unwrap();
     if let Some(h) = w.regions.get_mut(&uid) {
+        h.op_old_len = h.versions.last().map_or(0, |v| v.len());
+        h.op_cs0 = cs;
+        h.op_cf0 = cf;
         h.versions.push(Arc::new(new_bytes.to_vec()));
         h.pending = true;
     }
 }
 
-fn end(sh: &Shared, slot: &Slot, ok: bool) {
+/// true when a compaction overlapped the operation that just ended and that operation extended the
+/// region beyond its last valid page (the trigger of KF-C12-1)
+fn compaction_hit(h: &Hist, cs_now: usize, new_len: usize) -> bool {
+    (cs_now > h.op_cs0 || h.op_cs0 > h.op_cf0) && new_len > h.op_old_len.div_ceil(4096) * 4096
+}
+
+fn end(sh: &Shared, slot: &mut Slot, ok: bool) {
     let start = slot.region.meta().start();
+    let cs_now = sh.compact_started.load(Ordering::SeqCst);
     let mut w = sh.world.lock().unwrap();
     if let Some(h) = w.regions.get_mut(&slot.uid) {
         h.start = start;
@@ -114,6 +129,16 @@ fn end(sh: &Shared, slot: &Slot, ok: bool) {
         h.pending = false;
         if !ok {
             h.versions.pop();
+        } else if compaction_hit(h, cs_now, h.versions.last().map_or(0, |v| v.len())) {
+            // KF-C12-1 (known finding): compact() punches [ceil(len), reserved) of a region between a
+            // concurrent writer's data write and its length update. Excluded: that region is no longer
+            // content-checked (decided here, atomically with the end of the operation); counted.
+            sh.compact_overlapped_write.store(true, Ordering::Relaxed);
+            if kf::active("KF-C12-1") && !h.tainted {
+                h.tainted = true;
+                slot.tainted = true;
+                sh.excluded_kf12.fetch_add(1, Ordering::Relaxed);
+            }
         }
     }
 }
@@ -170,7 +195,7 @@ fn run_prog(t: usize, db: Database, mut slots: Vec<Option<Slot>>, ops: Vec<Op>, 
                     match db.create_region_if_needed(&name) {
                         Ok(region) => {
                             let uid = sh.next_uid.fetch_add(1, Ordering::Relaxed) as u64 + 1;
-                            sh.world.lock().unwrap().regions.insert(uid, Hist { name: name.clone(), owner: t, versions: vec![Arc::new(vec![])], removed: false, start: usize::MAX, pending: false, tainted: false });
+                            sh.world.lock().unwrap().regions.insert(uid, Hist { name: name.clone(), owner: t, versions: vec![Arc::new(vec![])], removed: false, start: usize::MAX, pending: false, tainted: false, op_cs0: 0, op_cf0: 0, op_old_len: 0 });
                             slots[k] = Some(Slot { uid, region, name, bytes: vec![], tainted: false });
                         }
                         Err(e) => err(&sh, format!("program {t} op #{i}: create failed: {e}")),
@@ -380,8 +405,17 @@ fn run_prog(t: usize, db: Database, mut slots: Vec<Option<Slot>>, ops: Vec<Op>, 
                             if start_now != start_at_creation && start_now != usize::MAX {
                                 sh.reader_across_relocation.store(true, Ordering::Relaxed);
                             }
-                            if sh.world.lock().unwrap().regions.get(&uid).is_some_and(|h| h.tainted) {
-                                break;
+                            {
+                                let cs_now = sh.compact_started.load(Ordering::SeqCst);
+                                let w = sh.world.lock().unwrap();
+                                if let Some(h) = w.regions.get(&uid) {
+                                    let in_flight_hit = h.pending
+                                        && kf::active("KF-C12-1")
+                                        && compaction_hit(h, cs_now, h.versions.last().map_or(0, |v| v.len()));
+                                    if h.tainted || in_flight_hit {
+                                        break;
+                                    }
+                                }
                             }
                             // KF-C10-2 (known finding): a Reader does not keep compact() from punching the part
                             // of its region that the owner truncated away after the Reader was created.
@@ -428,26 +462,6 @@ fn run_prog(t: usize, db: Database, mut slots: Vec<Option<Slot>>, ops: Vec<Op>, 
         if db.file_len() != f0 {
             sh.file_grew.store(true, Ordering::Relaxed);
         }
-        // KF-C12-1 (known finding): compact() punches [ceil(len), reserved) of a region between a
-        // concurrent writer's data write and its length update. Trigger = a compaction overlapping in
-        // time an operation that extended a region beyond its last valid page. Excluded: that region
-        // is no longer content-checked (counted); every other overlap still is.
-        let overlapped = sh.compact_started.load(Ordering::SeqCst) > cs0 || cs0 > cf0;
-        if overlapped {
-            for sl in slots.iter_mut().flatten() {
-                let old = lens0.iter().find(|(u, _)| *u == sl.uid).map_or(0, |x| x.1);
-                if sl.bytes.len() > old.div_ceil(4096) * 4096 {
-                    sh.compact_overlapped_write.store(true, Ordering::Relaxed);
-                    if kf::active("KF-C12-1") && !sl.tainted {
-                        sl.tainted = true;
-                        sh.excluded_kf12.fetch_add(1, Ordering::Relaxed);
-                        if let Some(h) = sh.world.lock().unwrap().regions.get_mut(&sl.uid) {
-                            h.tainted = true;
-                        }
-                    }
-                }
-            }
-        }
         check_own(t, i, &slots, &sh);
         sh.ops_done.fetch_add(1, Ordering::Relaxed);
     }
@@ -470,7 +484,7 @@ pub fn run_case(case: &Case, obs: &mut Obs) -> Result<(), String> {
             let bytes = pat_bytes((t as u8 + 1) * 16, 900_000 + k * 5000, 200 + 3500 * k);
             region.write(&bytes).map_err(|e| format!("prologue: {e}"))?;
             let uid = sh.next_uid.fetch_add(1, Ordering::Relaxed) as u64 + 1;
-            sh.world.lock().unwrap().regions.insert(uid, Hist { name: name.clone(), owner: t, versions: vec![Arc::new(bytes.clone())], removed: false, start: region.meta().start(), pending: false, tainted: false });
+            sh.world.lock().unwrap().regions.insert(uid, Hist { name: name.clone(), owner: t, versions: vec![Arc::new(bytes.clone())], removed: false, start: region.meta().start(), pending: false, tainted: false, op_cs0: 0, op_cf0: 0, op_old_len: 0 });
             named.push((name.clone(), region.clone()));
             slots.push(Some(Slot { uid, region, name, bytes, tainted: false }));
         }
